@@ -107,13 +107,16 @@ Definition kstep_composite_member (s : schema) (a : action) (rest : list action)
   | _ => false
   end.
 
-(* K5b: a column carrying a single-column unique / index / key is dropped and the same plan removes that
-   constraint by name afterwards (the object went with the column) *)
+(* K5b: a column carrying a single-column unique / index / key, or mentioned by a CHECK, is dropped and the same
+   plan removes that constraint by name afterwards (the object went with the column) *)
 Definition kstep_member_then_remove (s : schema) (a : action) (rest : list action) : bool :=
   match a with
   | DeleteColumn t c =>
       existsb (fun r => match r with
-                        | RemoveConstraint t' k => (String.eqb t' t && mem_str c (constraint_columns k))%bool
+                        | RemoveConstraint t' k =>
+                            (String.eqb t' t
+                             && (mem_str c (constraint_columns k)
+                                 || match k with CCheck _ e => mentions c e | _ => false end))%bool
                         | _ => false
                         end) rest
   | _ => false
@@ -256,11 +259,24 @@ Definition target_not_ready (s : schema) (self : string) (self_keys : list table
                                    end) keys)
   | _ => false
   end.
+(* the key is only added to the database by a later AddConstraint of the same plan (the evolving schema may already
+   hold it: AddColumn's inline primary_key / unique is promoted by apply but emits nothing) *)
+Definition key_added_later (rest : list action) (k : table_constraint) : bool :=
+  match k with
+  | CForeignKey _ _ rt rcols _ _ =>
+      existsb (fun r => match r with
+                        | AddConstraint t' (CPrimaryKey _ cols) | AddConstraint t' (CUnique _ cols) =>
+                            (String.eqb t' rt && same_cols cols rcols)%bool
+                        | _ => false
+                        end) rest
+  | _ => false
+  end.
 Definition kstep_reference_before_key (s : schema) (a : action) (rest : list action) : bool :=
   match a with
   | CreateTable t cols ks =>
-      let nk := normalized_constraints t cols ks in existsb (target_not_ready s t nk) nk
-  | AddConstraint t k => target_not_ready s t (table_constraints s t) k
+      let nk := normalized_constraints t cols ks in
+      existsb (fun k => (target_not_ready s t nk k || key_added_later rest k)%bool) nk
+  | AddConstraint t k => (target_not_ready s t (table_constraints s t) k || key_added_later rest k)%bool
   | _ => false
   end.
 
